@@ -17,6 +17,7 @@ from harness.common.ctx import Timeout, time_limit
 from harness.props import c13 as base
 
 EXE = "c14_model"
+PROPS = ["Holpy.C14.Props", "Holpy.C14.Props2"]
 
 
 def ids(pos):
@@ -187,6 +188,7 @@ class Examiner:
             ctx.count("apply:%s:no-guess" % name)
             return
         asked = False
+        nrec = len(self.recorder.records) if self.recorder is not None else 0
         outcome, err, target = None, None, None
         for _round in range(3):
             target = copy.copy(state)
@@ -245,6 +247,7 @@ class Examiner:
                               clean(sugg), sugg["goal_id"], sugg.get("fact_ids", []), goal.ident(), cls, base.short(err)), rp)
             return
         ctx.count("apply:%s:ok" % name)
+        self.advertised_vs_export(sugg, nrec)
         if sugg.get("_goal") or sugg.get("_fact"):
             ctx.sample({"goal": goal.ident(), "steps_so_far": len(trail), "suggestion": jsonable(sugg), "outcome": "ok"})
         if any(k.startswith("param_") and v != "" and k not in sugg for k, v in step.items()):
@@ -252,6 +255,24 @@ class Examiner:
             ctx.count("apply:%s:ok-with-instantiated-parameters" % name)
             sugg = {k: v for k, v in sugg.items() if k not in ("_goal", "_fact")}
         self.compare(goal, state, target, gp, sugg, rp)
+
+    def advertised_vs_export(self, sugg, nrec):
+        """Hypothesis of the advertised_eq_applied_* theorems: `search` and `apply` evaluate the same
+        proof term, i.e. the advertised `_goal` propositions are the propositions of the `sorry`
+        lines of the export captured while the suggestion was applied."""
+        rec = self.recorder
+        if rec is None or "_goal" not in sugg:
+            return
+        new = [r for r in rec.records[nrec:] if r[0] == "apply_tactic"]
+        if len(new) != 1:
+            return
+        cap = new[0][1][3]
+        exported = sorted({ln[0][3][0] for ln in cap if ln[0][1] == 1})
+        adv = sorted({rec.tcode(p) for p in sugg["_goal"]})
+        self.ctx.count("model:advertised-vs-export")
+        if adv != exported:
+            self.ctx.broken("correspondence:c14:advertised-vs-export",
+                            "%s advertised %d goals, the export applied has %d gaps with other propositions" % (clean(sugg), len(adv), len(exported)))
 
     def compare(self, goal, state, target, gp, sugg, rp):
         ctx = self.ctx
@@ -371,9 +392,9 @@ def run(ctx):
         faulthandler.register(signal.SIGUSR1)
     except Exception:  # noqa
         pass
-    proofs_ok = ctx.lean_props(["Holpy.C14.Props"], exes=[EXE])
+    proofs_ok = ctx.lean_props(PROPS, exes=[EXE])
     if ctx.tier == "thorough" and proofs_ok:
-        ctx.lean_check_modules(["Holpy.C14.Props"])
+        ctx.lean_check_modules(PROPS)
     ctx.coverage["trusted_base"] += [
         "property oracle harness/props/c14.py (what counts as advertised: the `_goal` / `_fact` entries output_hint displays)",
         "type-directed parameter guesses of harness/props/c13.py:fill_params"]
@@ -472,8 +493,8 @@ def streams(ctx, recorder):
                 recorded_prefixes(ctx, ex, g)
                 if ctx.tier == "thorough" or rng.random() < 0.5:
                     obs = lambda runner, st, g=g: ex.examine(g, [dict(t) for t in runner.trail], st)  # noqa
-                    base.run_recorded(ctx, g, rng, 0.4, 0.0, observer=obs, judge_states=False)
-                    base.run_walk(ctx, g, rng, ctx.scale(4, 10), 0.0, observer=obs, judge_states=False)
+                    base.run_recorded(ctx, g, rng, 0.4, 0.0, recorder, observer=obs, judge_states=False)
+                    base.run_walk(ctx, g, rng, ctx.scale(4, 10), 0.0, recorder, observer=obs, judge_states=False)
         except Timeout:
             ctx.count("timeout:theory:" + thy)
         ctx.log("theory %s: %d goals, %d suggestions so far" % (thy, n, ctx.coverage["evaluations"]))
@@ -487,7 +508,7 @@ def streams(ctx, recorder):
         except Exception:  # noqa
             continue
         obs = lambda runner, st, g=g: ex.examine(g, [dict(t) for t in runner.trail], st)  # noqa
-        base.run_walk(ctx, g, rng, ctx.scale(5, 10), 0.0, observer=obs, judge_states=False)
+        base.run_walk(ctx, g, rng, ctx.scale(5, 10), 0.0, recorder, observer=obs, judge_states=False)
     ctx.log("generated goals done: %d suggestions" % ctx.coverage["evaluations"])
 
 
@@ -538,14 +559,19 @@ MANIFEST = {
             "perturbed/random edit sequences), for gap and fact selections (<=3 facts; the same goal is searched repeatedly with different "
             "selections in one process), every suggestion of search_method is applied to a copy with the declared parameters supplied "
             "type-directedly: it must succeed or raise ParameterQueryException naming parameters; on success the newly open goals are "
-            "compared with the advertised _goal list (proposition, and no hypothesis of the goal lost; each advertised goal not left open must "
-            "be stated by an earlier visible line or be trivially true by an independent test), the state after a _goal or _fact suggestion "
-            "must re-check, an advertised _fact appears as a new non-gap line. Every apply_tactic / forward-step primitive call made while "
-            "applying suggestions is replayed on the Lean model (c14_model). Lean (model of apply_tactic shared with C13), for exported lines "
-            "numbered id, id+1, ... (checked on every captured export): open_goals_subset_advertised (gaps after <= gaps before minus the "
-            "goal line plus the gaps of the proof term), solving_shape_closes_exactly_the_goal; without that hypothesis "
-            "open_goals_subset_advertised_partial, solving_shape_leaves_no_new_gap_partial; forward_fact_opens_no_gap_partial. Not proved: "
-            "that a vanished advertised gap went through find_goal/trivial (by construction of the model only); search bodies.",
+            "compared with the advertised _goal list (proposition, no hypothesis of the goal lost; each advertised goal not left open must be "
+            "stated by an earlier visible line or be trivially true by an independent test), the state after a _goal or _fact suggestion "
+            "must re-check, an advertised _fact appears as a new non-gap line. Model streams (c14_model): every apply_tactic / forward-step "
+            "primitive call made while applying suggestions; method-level records of cut / forall_elim / apply_fact / new_var / cases against "
+            "cutM / forwardFact / casesM; `advertised-vs-export`: the _goal list of a suggestion = the gaps of the export captured while "
+            "applying it. PROVED (exported lines numbered id, id+1, .. without subproofs - checked on every captured export): "
+            "open_goals_subset_advertised, solving_shape_closes_exactly_the_goal, advertised_eq_applied_apply_backward_step / _rewrite_goal "
+            "(gaps after <= gaps before minus the goal plus the advertised ones, as multisets; nothing advertised = exactly the goal "
+            "disappears), advertised_eq_applied_cases (at most the two case goals open), advertised_eq_applied_cut (exactly one new gap "
+            "with the given sequent), advertised_eq_applied_forall_elim (a forward step leaves the gaps exactly as they were). NOT proved: "
+            "introduction (its subproof splice is not modelled), that a vanished advertised gap went through find_goal / trivial (by "
+            "construction of the model only), search bodies (a tactic is the list of its exported lines; search and apply evaluating the "
+            "same term is the stream, not a theorem).",
     "note": "Trusted: Lean kernel (propext/Classical.choice/Quot.sound), harness generators and parameter guesses, the reading of `_goal`/`_fact` "
             "as what a suggestion advertises (method.output_hint), holpy's checker for 'justified'. A failure after the harness supplied "
             "parameters that the method asked for is counted but not reported (the guess may be at fault).",
